@@ -17,6 +17,7 @@ RULE = (
     "(exhaustive), (b) Hypothesis histories up to 30/80 ops with 60% hot-key bias and sizes relative to the budget. "
     "Non-trivial = history re-memoizes a live key, re-adds a forgotten key, stores an oversize/cache-filling value, "
     "looks up an absent key before a listing, or has prefix-related names live together; distinct by op-kind sequence."
+    " Round 5: a third of the histories build their stores from a configuration dict that was used before for another (decoy) store holding results for the same calls, and whose path / cache size the keyword arguments override; values include partitions."
 )
 ASSUMPTIONS = [
     "single process, no concurrent writers; str size classes use sys.getsizeof("")+n of the running interpreter",
